@@ -42,7 +42,7 @@ def gen(r, tier, i):
     flowless0 = r.random() < 0.2
     return {'cell_ts': r.choice([0.5, 1.0, 1.5, 0.75]), 'dir_as': 'process' if flowless0 else r.choice(['process', 'process', 'step']),
             'initial_flowless': flowless0, 'script': script, 'base': r.choice([[], [], ['env']]),
-            'deriver': r.choice([None, 'steps', 'processes']), 'viewers': r.random() < 0.3, 'poke': r.random() < 0.4, 'nested_cells': r.random() < 0.4, 'gen_legacy': r.random() < 0.3, 'dir_key': r.choice(['dir', 'dir', '0dir']), 'cell_rev': r.random() < 0.5, 'dir_subtopo': r.random() < 0.25, 'dir_first': r.random() < 0.4,
+            'deriver': r.choice([None, 'steps', 'processes']), 'viewers': r.random() < 0.3, 'poke': r.random() < 0.4, 'nested_cells': r.random() < 0.4, 'gen_legacy': r.random() < 0.3, 'dir_key': r.choice(['dir', 'dir', '0dir']), 'cell_rev': r.random() < 0.5, 'dir_subtopo': r.random() < 0.25, 'dir_first': r.random() < 0.4, 'dir_alias': r.random() < 0.3,
             'viewer_ts': 0.5, 'run': run_len, 'extra': 3.0}
 
 
